@@ -17,6 +17,7 @@ every batch so far" (`panic_iff_gc_absent`); without it the real handler panics 
 -/
 import NGF.Proofs.ProvisionerRun
 import NGF.Proofs.ProvisionerStable
+import NGF.Proofs.ProvisionerArgs
 import NGF.Generated.ProvisionerFacts
 
 namespace NGF.Prov
@@ -169,7 +170,7 @@ theorem lock_name_of_its_gateway (cfg : Cfg) (hist : Hist) (p : Key × Dep) (hp 
     (a : Str) (ha : a ∈ cfg.tmpl) (hl : isInfix lockNeedle a = true) : lockFlag ++ p.1.name ∈ p.2.args := by
   obtain ⟨i, _, e⟩ := deployment_is_prepared cfg hist p hp
   rw [e]
-  simp only [prepare, List.mem_cons, List.mem_map]
+  simp only [prepare_args, List.mem_cons, List.mem_map]
   exact Or.inr (Or.inr ⟨a, ha, by simp [rewriteArg, hl]⟩)
 
 /-- OBSERVATION (outside the letter of C18): Gateways `ns1/gw-a` and `ns2/gw-a` get Deployments with
@@ -177,6 +178,221 @@ the same `--leader-election-lock-name`. -/
 theorem lock_name_shared_across_namespaces :
     let s := run cfg0 init [([.upsertGC cN, .upsertGw kA cN, .upsertGw kB cN], [])]
     s.cluster.length = 2 ∧ ∀ d ∈ s.cluster, lockFlag ++ kA.name ∈ d.args := by decide
+
+/-! ### argument rewriting of `prepareDeployment`: `prepareArgs` (the function `prepare` — hence `run` — uses)
+
+For ALL Gateway keys (in particular all DNS-1123 namespace/name pairs, however hostile: a namespace or name may
+contain `leader-election-lock-name`, `gateway`, `--`, …) and all template arg lists of the shape of the manifest
+in the tree (`manifestShape`, pinned by `manifest_shape_ok`). -/
+
+/-- namespace `leader-election-lock-name`, name `gw`: a legal Gateway key that contains the needle -/
+def kH1 : Key := ⟨lockNeedle, ['g','w']⟩
+/-- the needle inside a label of the (subdomain) name -/
+def kH2 : Key := ⟨['n','s','1'], ['x','-'] ++ lockNeedle ++ ['.','a']⟩
+def tmpl0 : List Str := [['s','t','a','t','i','c','-','m','o','d','e'], lockFlag ++ ['x'], ['-','-','y']]
+
+/-- the loop of `prepareDeployment` in closed form: the two fresh args, then the template args with every arg
+that CONTAINS the needle replaced -/
+theorem prepareArgs_closed_form (tmpl : List Str) (k : Key) (id : Str) :
+    prepareArgs tmpl k id = (gwFlag ++ gwString k) :: updFlag :: tmpl.map (rewriteArg k) :=
+  prepareArgs_eq tmpl k id
+
+/-- `args_exactly_one_gateway`, FULL STRENGTH: for every key and every template without a `--gateway=` arg of its
+own the prepared args carry exactly one `--gateway=` arg, it is `--gateway=<ns>/<name>` of the key, and for a
+DNS-1123 key its value decodes (exactly two '/'-separated parts) to that key and to no other. -/
+theorem args_exactly_one_gateway (tmpl : List Str) (ht : TmplOK tmpl) (k : Key) (id : Str) :
+    (prepareArgs tmpl k id).filter (fun a => gwFlag.isPrefixOf a) = [gwFlag ++ gwString k] ∧
+    (dnsKey k = true → parseGwValue (gwString k) = some k) := by
+  refine ⟨?_, parseGwValue_of_dnsKey⟩
+  rw [prepareArgs_eq]
+  simp only [List.filter_cons, gwFlag_isPrefixOf_self, gwFlag_not_prefix_upd, if_true, Bool.false_eq_true, if_false]
+  congr 1
+  apply filter_eq_nil_of_all_false
+  intro a ha
+  obtain ⟨b, hb, rfl⟩ := List.mem_map.mp ha
+  simp only [rewriteArg]
+  split
+  · exact gwFlag_not_prefix_lock _
+  · exact ht b hb
+
+example : dnsKey kH1 = true ∧ dnsKey kH2 = true ∧ dnsKey kA = true ∧ TmplOK tmpl0 ∧
+    isInfix lockNeedle (gwFlag ++ gwString kH1) = true ∧ isInfix lockNeedle (gwFlag ++ gwString kH2) = true ∧
+    (prepareArgs tmpl0 kH1 (idName 1)).filter (fun a => gwFlag.isPrefixOf a) = [gwFlag ++ gwString kH1] := by
+  decide
+
+/-- `args_exactly_one_lock_name`: for a template of the manifest's shape there is exactly one
+`--leader-election-lock-name=` arg and its value is the NAME of the Deployment's Gateway. -/
+theorem args_exactly_one_lock_name (tmpl : List Str) (hs : manifestShape tmpl = true) (k : Key) (id : Str) :
+    (prepareArgs tmpl k id).filter (fun a => lockFlag.isPrefixOf a) = [lockFlag ++ k.name] := by
+  obtain ⟨pre, x, post, e, hx, hpre, hpost⟩ := split_of_filter_length_one _ tmpl (manifestShape_one hs)
+  have hsub := manifestShape_sub_eq_prefix hs
+  have hpre' : ∀ a ∈ pre, lockFlag.isPrefixOf a = false := fun a ha => by
+    rw [← hsub a (by rw [e]; simp [ha])]; exact hpre a ha
+  have hpost' : ∀ a ∈ post, lockFlag.isPrefixOf a = false := fun a ha => by
+    rw [← hsub a (by rw [e]; simp [ha])]; exact hpost a ha
+  rw [prepareArgs_eq, e]
+  simp only [List.filter_cons, lockFlag_not_prefix_gw, lockFlag_not_prefix_upd, Bool.false_eq_true, if_false,
+    List.map_append, List.map_cons, map_rewriteArg_of_none k pre hpre, map_rewriteArg_of_none k post hpost,
+    rewriteArg, hx, if_true, List.filter_append, filter_eq_nil_of_all_false _ pre hpre',
+    filter_eq_nil_of_all_false _ post hpost', lockFlag_isPrefixOf_self, List.nil_append]
+
+/-- `args_other_preserved`, FULL STRENGTH (every template, every key): the prepared list is two args longer than the
+template; position `j+2` holds template arg `j` unchanged unless it contains the needle (then the lock-name arg);
+the template args that do not contain the needle survive unchanged, all of them, in their order, and nothing
+else without the needle follows the two fresh args. -/
+theorem args_other_preserved (tmpl : List Str) (k : Key) (id : Str) :
+    (prepareArgs tmpl k id).length = tmpl.length + 2 ∧
+    (∀ j (h : j < tmpl.length), (prepareArgs tmpl k id)[j + 2]? =
+      some (if isInfix lockNeedle tmpl[j] then lockFlag ++ k.name else tmpl[j])) ∧
+    ((prepareArgs tmpl k id).drop 2).filter (fun a => !isInfix lockNeedle a) =
+      tmpl.filter (fun a => !isInfix lockNeedle a) := by
+  rw [prepareArgs_eq]
+  refine ⟨by simp, ?_, ?_⟩
+  · intro j h
+    simp [rewriteArg, h]
+  · simp only [List.drop_succ_cons, List.drop_zero]
+    exact filter_map_rewriteArg k tmpl
+
+/-- … and for a template of the manifest's shape, explicitly: the one lock-name arg is replaced in place. -/
+theorem args_manifest_form (tmpl : List Str) (hs : manifestShape tmpl = true) (k : Key) (id : Str) :
+    ∃ pre x post, tmpl = pre ++ x :: post ∧ lockFlag.isPrefixOf x = true ∧
+      prepareArgs tmpl k id = (gwFlag ++ gwString k) :: updFlag :: (pre ++ (lockFlag ++ k.name) :: post) := by
+  obtain ⟨pre, x, post, e, hx, hpre, hpost⟩ := split_of_filter_length_one _ tmpl (manifestShape_one hs)
+  refine ⟨pre, x, post, e, ?_, ?_⟩
+  · rw [← manifestShape_sub_eq_prefix hs x (by rw [e]; simp)]; exact hx
+  · rw [prepareArgs_eq, e]
+    simp [map_rewriteArg_of_none k pre hpre, map_rewriteArg_of_none k post hpost, rewriteArg, hx]
+
+example : manifestShape tmpl0 = true ∧
+    prepareArgs tmpl0 kH2 (idName 7) = [gwFlag ++ gwString kH2, updFlag, tmpl0[0], lockFlag ++ kH2.name, tmpl0[2]] := by
+  decide
+
+/-- exactly one `--update-gatewayclass-status=` arg, with value `false` -/
+theorem args_exactly_one_update_status (tmpl : List Str) (hs : manifestShape tmpl = true) (k : Key) (id : Str) :
+    (prepareArgs tmpl k id).filter (fun a => updPrefix.isPrefixOf a) = [updFlag] := by
+  have hno := manifestShape_noUpd hs
+  rw [prepareArgs_eq]
+  have h1 : updPrefix.isPrefixOf (gwFlag ++ gwString k) = false := by
+    simp [updPrefix, updFlag, gwFlag, List.isPrefixOf]
+  have h2 : updPrefix.isPrefixOf updFlag = true := by decide
+  simp only [List.filter_cons, h1, h2, if_true, Bool.false_eq_true, if_false]
+  congr 1
+  apply filter_eq_nil_of_all_false
+  intro a ha
+  obtain ⟨b, hb, rfl⟩ := List.mem_map.mp ha
+  simp only [rewriteArg]
+  split
+  · simp [updPrefix, updFlag, lockFlag, lockNeedle, List.isPrefixOf]
+  · exact hno b hb
+
+/-- the `id` parameter of `prepareDeployment` does not reach the args -/
+theorem args_do_not_read_id (tmpl : List Str) (k : Key) (id id' : Str) :
+    prepareArgs tmpl k id = prepareArgs tmpl k id' := rfl
+
+/-- `args_lock_name_unique` (distinct Deployments carry distinct lock names) is FALSE for the code in the tree: the
+lock name is the Gateway's NAME only. WITNESS (known finding C18:lock-name-shared-across-namespaces): Gateways
+`ns1/gw-a` and `ns2/gw-a`, both DNS-1123, get the same `--leader-election-lock-name=gw-a`. -/
+theorem args_lock_name_unique_false :
+    ¬ ∀ (tmpl : List Str) (k k' : Key) (id id' : Str), manifestShape tmpl = true → dnsKey k = true → dnsKey k' = true →
+        k ≠ k' → id ≠ id' →
+        (prepareArgs tmpl k id).filter (fun a => lockFlag.isPrefixOf a) ≠
+        (prepareArgs tmpl k' id').filter (fun a => lockFlag.isPrefixOf a) := by
+  intro h
+  exact h tmpl0 kA kB (idName 1) (idName 2) (by decide) (by decide) (by decide) (by decide) (by decide) (by decide)
+
+/-- `args_lock_name_unique`, PARTIAL (what the code does guarantee): the lock-name arg determines the Gateway's
+name, so Deployments of Gateways with different NAMES never share a lock (the namespace is not looked at). -/
+theorem args_lock_name_unique_partial (tmpl : List Str) (hs : manifestShape tmpl = true) (k k' : Key) (id id' : Str)
+    (hn : k.name ≠ k'.name) :
+    (prepareArgs tmpl k id).filter (fun a => lockFlag.isPrefixOf a) ≠
+    (prepareArgs tmpl k' id').filter (fun a => lockFlag.isPrefixOf a) := by
+  rw [args_exactly_one_lock_name tmpl hs, args_exactly_one_lock_name tmpl hs]
+  intro e
+  exact hn (List.append_cancel_left (List.cons.inj e).1)
+
+example : manifestShape tmpl0 = true ∧ kA.name ≠ kC.name ∧ kA.name = kB.name ∧ kA ≠ kB := by decide
+
+/-- the seeded refactoring (scan the whole list, `prepareArgsScanAll`) is NOT what the code does: for the DNS-1123
+key `leader-election-lock-name/gw` it yields a Deployment without any `--gateway=` arg (and two lock-name args),
+while the code in the tree keeps the flag. -/
+theorem scan_all_variant_loses_gateway_flag :
+    dnsKey kH1 = true ∧ manifestShape tmpl0 = true ∧
+    (prepareArgsScanAll tmpl0 kH1 (idName 1)).filter (fun a => gwFlag.isPrefixOf a) = [] ∧
+    ((prepareArgsScanAll tmpl0 kH1 (idName 1)).filter (fun a => lockFlag.isPrefixOf a)).length = 2 ∧
+    (prepareArgs tmpl0 kH1 (idName 1)).filter (fun a => gwFlag.isPrefixOf a) = [gwFlag ++ gwString kH1] := by
+  decide
+
+/-- the two variants differ exactly on the keys whose `--gateway=` arg contains the needle: the hostile-name
+family of the harness is the set of inputs that tells them apart. -/
+theorem scan_all_variant_differs_iff (tmpl : List Str) (k : Key) (id : Str) :
+    prepareArgsScanAll tmpl k id ≠ prepareArgs tmpl k id ↔ isInfix lockNeedle (gwFlag ++ gwString k) = true := by
+  rw [prepareArgs_eq]
+  simp only [prepareArgsScanAll, List.map_cons]
+  have hu : rewriteArg k updFlag = updFlag := by simp [rewriteArg, needle_not_in_upd]
+  rw [hu]
+  constructor
+  · intro h
+    by_cases hc : isInfix lockNeedle (gwFlag ++ gwString k) = true
+    · exact hc
+    · exfalso; apply h; simp [rewriteArg, hc]
+  · intro hc e
+    have := (List.cons.inj e).1
+    simp only [rewriteArg, hc, if_true] at this
+    have h2 := gwFlag_not_prefix_lock k.name
+    rw [this, gwFlag_isPrefixOf_self] at h2
+    cases h2
+
+/-! ### … lifted to every Deployment of every history (multi-Gateway batches included) -/
+
+/-- the args of a Deployment are `prepareArgs` of the template, of ITS Gateway and of its own name -/
+theorem deployment_args_exact (cfg : Cfg) (hist : Hist) (p : Key × Dep) (hp : p ∈ (run cfg init hist).prov) :
+    p.2.args = prepareArgs cfg.tmpl p.1 p.2.name := by
+  obtain ⟨i, _, e⟩ := deployment_is_prepared cfg hist p hp
+  rw [e]; rfl
+
+/-- `args_independent_across_deployments`: the args of a Deployment are a function of its own Gateway (and the
+template) only — whatever else was provisioned before it or in the same batch, in whatever map order, in whichever
+history: the same Gateway gets the same args in any two runs, and with the same id the same Deployment. -/
+theorem args_independent_across_deployments (cfg : Cfg) (hist hist' : Hist) (p q : Key × Dep)
+    (hp : p ∈ (run cfg init hist).prov) (hq : q ∈ (run cfg init hist').prov) (hk : p.1 = q.1) :
+    p.2.args = q.2.args ∧ (p.2.name = q.2.name → p.2 = q.2) := by
+  obtain ⟨i, _, e⟩ := deployment_is_prepared cfg hist p hp
+  obtain ⟨j, _, e'⟩ := deployment_is_prepared cfg hist' q hq
+  rw [e, e', hk]
+  refine ⟨rfl, fun hn => ?_⟩
+  have : i = j := idName_inj hn
+  rw [this]
+
+/-- two Gateways created in ONE batch (the situation of seeded change C18-r3m1, template aliasing) -/
+example : let s := run cfg0 init [([.upsertGC cN, .upsertGw kA cN, .upsertGw kH1 cN, .upsertGw kC cN], [kH1, kC, kA])]
+    s.cluster.map (·.args) = [prepareArgs cfg0.tmpl kH1 [], prepareArgs cfg0.tmpl kC [], prepareArgs cfg0.tmpl kA []] ∧
+    s.cluster.map (·.name) = [idName 1, idName 2, idName 3] := by decide
+
+/-- every Deployment of every history: exactly one `--gateway=` arg, the one of its own Gateway (which decodes to
+that Gateway for DNS-1123 keys); exactly one lock-name arg, named after its Gateway; exactly one
+`--update-gatewayclass-status=false`; all other manifest args unchanged and in order. -/
+theorem every_deployment_args (cfg : Cfg) (hs : manifestShape cfg.tmpl = true) (hist : Hist) (p : Key × Dep)
+    (hp : p ∈ (run cfg init hist).prov) :
+    p.2.args.filter (fun a => gwFlag.isPrefixOf a) = [gwFlag ++ gwString p.1] ∧
+    (dnsKey p.1 = true → parseGwValue (gwString p.1) = some p.1) ∧
+    p.2.args.filter (fun a => lockFlag.isPrefixOf a) = [lockFlag ++ p.1.name] ∧
+    p.2.args.filter (fun a => updPrefix.isPrefixOf a) = [updFlag] ∧
+    (p.2.args.drop 2).filter (fun a => !isInfix lockNeedle a) = cfg.tmpl.filter (fun a => !isInfix lockNeedle a) := by
+  rw [deployment_args_exact cfg hist p hp]
+  exact ⟨(args_exactly_one_gateway _ (manifestShape_tmplOK hs) _ _).1,
+    (args_exactly_one_gateway _ (manifestShape_tmplOK hs) _ []).2,
+    args_exactly_one_lock_name _ hs _ _, args_exactly_one_update_status _ hs _ _,
+    (args_other_preserved _ _ _).2.2⟩
+
+/-- WITNESS on the batch model (known finding C18:lock-name-shared-across-namespaces) together with what a lock
+name taken from the Deployment id would give: ids — hence such lock names — are pairwise distinct in every history. -/
+theorem lock_name_from_id_would_be_unique (cfg : Cfg) (hist : Hist) :
+    ((run cfg init hist).cluster.map (fun d => lockFlag ++ d.name)).Nodup := by
+  have h := names_unique cfg hist
+  have e : (run cfg init hist).cluster.map (fun d => lockFlag ++ d.name) =
+      ((run cfg init hist).cluster.map (·.name)).map (fun n => lockFlag ++ n) := by simp [List.map_map]
+  rw [e]
+  exact nodup_map_of_injective (fun a b e => List.append_cancel_left e) h
 
 /-! ### GatewayClass statuses -/
 
@@ -363,8 +579,14 @@ theorem store_kinds_as_modelled :
   decide
 
 set_option maxRecDepth 100000 in
-/-- the static-mode manifest in the tree has no `--gateway=` arg of its own and does have a
-lock-name arg to rewrite (hypotheses of `configured_for_its_gateway` / `lock_name_of_its_gateway`) -/
+/-- the static-mode manifest in the tree has the shape the arg theorems assume (`manifestShape`): no `--gateway=` /
+`--update-gatewayclass-status=` arg of its own, substring match = prefix match `--leader-election-lock-name=` on
+its args, exactly one such arg -/
+theorem manifest_shape_ok :
+    manifestShape (Generated.Provisioner.templateArgs.map String.toList) = true := by decide +kernel
+
+set_option maxRecDepth 100000 in
+/-- (older, weaker form of `manifest_shape_ok`, kept) -/
 theorem manifest_args_ok :
     TmplOK (Generated.Provisioner.templateArgs.map String.toList) ∧
     (Generated.Provisioner.templateArgs.map String.toList).any (isInfix lockNeedle) = true := by
